@@ -90,6 +90,17 @@ def main():
             for name, hs, prior in PRIORS:
                 pl = dict({'cls': cls, 'mod': mod, 'n_agents': na, 'n_vars': nv, 'n_iter': ni, 'seed': seed, 'prior': prior}, **extra)
                 jobs.append((cls + ':' + vname, (na, nv, ni), seed, name, hs, pl))
+        # the generator re-seeded between assembling the task (space built, Opytimizer constructed) and start(): the late seed decides the run
+        na, nv, ni = sizes[0]
+        if cls == 'WCA':
+            na = max(na, 12)
+        seed = rng.randrange(1 << 30)
+        late = rng.randrange(1 << 30)
+        for name, hs, prior in PRIORS[:2]:
+            jobs.append((cls + ':late-seed', (na, nv, ni), seed, name, hs,
+                         {'cls': cls, 'mod': mod, 'n_agents': na, 'n_vars': nv, 'n_iter': ni, 'seed': seed, 'late_seed': late, 'prior': prior}))
+        jobs.append((cls + ':late-seed', (na, nv, ni), seed, 'other-seed', '0',
+                     {'cls': cls, 'mod': mod, 'n_agents': na, 'n_vars': nv, 'n_iter': ni, 'seed': seed, 'late_seed': late + 1, 'prior': []}))
     with ThreadPoolExecutor(max_workers=12) as ex:
         digs = list(ex.map(lambda j: child(j[5], j[4]), jobs))
     groups = {}
